@@ -11,13 +11,17 @@ V = os.path.dirname(os.path.dirname(os.path.abspath(__file__)))
 ap = argparse.ArgumentParser(); ap.add_argument("ids", nargs="*"); ap.add_argument("-j", type=int, default=4)
 a = ap.parse_args()
 ids = a.ids or sorted(d for d in os.listdir(os.path.join(V, "mutants")) if os.path.isdir(os.path.join(V, "mutants", d)))
+only = os.environ.get("MUTANTS_ONLY")
 jobs = [(pid, p) for pid in ids for p in sorted(glob.glob(os.path.join(V, "mutants", pid, "*.diff")) + glob.glob(os.path.join(V, "mutants", pid, "*.patch")))]
 rp = os.path.join(V, "mutants", "RESULTS.json")
 results = json.load(open(rp)) if os.path.exists(rp) else {}
+if only == "unapplied":
+    jobs = [j for j in jobs if results.get(j[0] + "/" + os.path.basename(j[1]), {}).get("status") != "run"]
 
 def apply(patch, scratch):
     for cmd in (["patch", "-p1", "--fuzz=3", "-s", "-f", "-i", patch], ["patch", "-p0", "--fuzz=3", "-s", "-f", "-i", patch],
-                ["git", "apply", patch]):
+                ["patch", "-p2", "--fuzz=3", "-s", "-f", "-i", patch], ["patch", "-p3", "--fuzz=3", "-s", "-f", "-i", patch],
+                ["patch", "-p4", "--fuzz=3", "-s", "-f", "-i", patch], ["git", "apply", patch]):
         r = subprocess.run(cmd, cwd=scratch, capture_output=True, text=True)
         if r.returncode == 0:
             return True
